@@ -511,6 +511,11 @@ func luaEq(jv any, r respc.Reply) (bool, string) {
 		if isBulk(r) && x == wire.NormString(r.Str) {
 			return true, ""
 		}
+		// an element that cannot be converted: RESP carries an error element inside the array, a
+		// JSON array can only carry its text
+		if r.Kind == '-' && strings.HasPrefix(x, "Unsupported lua type") && normErr(x) == normErr(r.Str) {
+			return true, ""
+		}
 		return false, "string differs"
 	case []any:
 		if !isArr(r) || len(r.Arr) != len(x) {
